@@ -208,6 +208,9 @@ class SceneGraph:
         copied.transforms = deepcopy(self.transforms)
         return copied
 
+    def __copy__(self, *args):
+        return self.copy()
+
     def to_flattened(self):
         """
         Export the current transform graph with all
